@@ -230,7 +230,7 @@ static Outcome execute(const Scenario& sc, const Plan& plan, std::uint64_t sched
     out.trace = tail;
     // kernel-level fault counters that actually fired
     auto add = [&](const char* n, std::uint64_t v) { if (v) { out.faults[n] += v; } };
-    add("thread_descheduled", out.st.descheduled); add("short_read", out.st.short_reads); add("short_write", out.st.short_writes); add("eagain", out.st.eagain);
+    add("thread_descheduled", out.st.descheduled); add("thread_descheduled_after_unlock", out.st.descheduled_after_unlock); add("short_read", out.st.short_reads); add("short_write", out.st.short_writes); add("eagain", out.st.eagain);
     add("conn_reset", out.st.resets); add("conn_refused", out.st.refused); add("recv_timeout", out.st.rcv_timeouts);
     add("sigpipe_or_epipe", out.st.sigpipes); add("accept_fault", out.st.accept_faults); add("dgram_lost", out.st.dgram_lost);
     add("dgram_dup", out.st.dgram_dup); add("file_fault", out.st.file_faults); add("process_crash", out.st.crashes);
